@@ -284,6 +284,44 @@ func errCheckedCall(call *ssa.Call) (bool, string) {
 					guarded = true
 				}
 			}
+			// pass-through: `return f()` lowered to extracts returned together with the error
+			if ret, ok := u.(*ssa.Return); ok {
+				for _, rv := range ret.Results {
+					if rv == ssa.Value(errEx) {
+						guarded = true
+					}
+				}
+			}
+			// stored into a field of an object that is only returned where the error is nil
+			if st, ok := u.(*ssa.Store); ok && !guarded {
+				if fa, ok := st.Addr.(*ssa.FieldAddr); ok {
+					base := strip(fa.X)
+					okAll, any := true, false
+					after := reachableBlocks(st.Block(), nil)
+					for _, ret := range returnsOf(call.Parent()) {
+						if !after[ret.Block()] {
+							continue
+						}
+						for i := range ret.Results {
+							if strip(retOperand(ret, i)) == base {
+								any = true
+								g := false
+								for _, at := range factsAt(ret.Block()) {
+									if at.Kind == "nil" && at.Pos && at.X == ssa.Value(errEx) {
+										g = true
+									}
+								}
+								if !g {
+									okAll = false
+								}
+							}
+						}
+					}
+					if any && okAll {
+						guarded = true
+					}
+				}
+			}
 			if !guarded {
 				return false, fmt.Sprintf("result used at %s where the error may be non-nil", u.String())
 			}
